@@ -31,6 +31,7 @@ NOT_COVERED_RE = re.compile(
     r'|Error code changed to (?P<code2>[a-z0-9-]+); "type: ignore" comment may be out of date)'
 )
 UNUSED_RE = re.compile(r'error: Unused "type: ignore(\[[^\]]*\])?" comment.*\[unused-ignore\]$')
+IWC_RE = re.compile(r'error: "type: ignore" comment without error code.*\[ignore-without-code\]$')
 NARROWER_RE = re.compile(r"use narrower \[([^\]]*)\] instead of")
 LOC_RE = re.compile(r"^(?P<file>[^:\n]+):(?P<line>\d+)(?::\d+)*: (?P<sev>error|note): ")
 
@@ -239,7 +240,8 @@ def predict_ignores(base: dict[str, Any], main: str, added: dict[int, list[str]]
     return pr
 
 
-def predict_disable(base: dict[str, Any], per_file_codes: dict[str, tuple[set[str], set[str]]]) -> Prediction:
+def predict_disable(base: dict[str, Any], per_file_codes: dict[str, tuple[set[str], set[str]]], main: str,
+                    unused_on: bool, iwc: bool) -> Prediction:
     """per_file_codes: file -> (disabled names, enabled names) in effect for that file in the perturbed run."""
     pr = Prediction()
     emap: dict[str, list[Any]] = base["infos"]
@@ -256,13 +258,30 @@ def predict_disable(base: dict[str, Any], per_file_codes: dict[str, tuple[set[st
         pr.keep[f] = [i for i in infos if id(i) not in removed]
     if any(i.only_once and i.message in dropped_msgs for i in pr.removed):
         pr.skip = "only_once message with a dropped duplicate would be removed"
-    # an existing comment whose swallowed error is now disabled may become unused: legitimate, not compared
+    # an existing comment that swallowed only errors of the now-disabled code suppresses nothing any more:
+    # it must be reported unused (predicted for bare / single-code comments of the main file; other shapes
+    # have a composite message and are left out of the comparison as volatile lines)
     pr.volatile_by_file = {}  # type: ignore[attr-defined]
+    by_line: dict[tuple[str, int], list[Any]] = {}
     for f, s in base["swallowed"]:
+        by_line.setdefault((f, getattr(s, "_c13_claimed_by", -1)), []).append(s)
+    for (f, ln), ss in by_line.items():
         dis, en = per_file_codes.get(f, per_file_codes[""])
-        if s.code is not None and not code_enabled(s.code, dis, en):
-            for ln in span_of(s):
-                pr.volatile_by_file.setdefault(f, set()).add(ln)  # type: ignore[attr-defined]
+        gone = [s for s in ss if s.code is not None and not code_enabled(s.code, dis, en)]
+        if not gone:
+            continue
+        listed = base["all_ignored_lines"].get(f, {}).get(ln)
+        already = any(i.line == ln and i.code is not None and i.code.code in ("unused-ignore", "ignore-without-code")
+                      for i in emap.get(f, []))
+        simple = f == main and listed is not None and len(listed) <= 1 and ln >= 1 and not iwc and not already
+        if simple and len(gone) == len(ss):
+            if unused_on:
+                pr.unused[ln] = 'Unused "type: ignore" comment'
+        elif simple:
+            pass  # still used
+        else:
+            for x in set(span_of(ss[0])) | {ln}:
+                pr.volatile_by_file.setdefault(f, set()).add(x)  # type: ignore[attr-defined]
     return pr
 
 
@@ -317,7 +336,7 @@ def drop_unused_at(lines: list[str], main_disp: str, at: set[int]) -> list[str]:
     out = []
     for ln in lines:
         m = LOC_RE.match(ln)
-        if m and m.group("file") == main_disp and int(m.group("line")) in at and UNUSED_RE.search(ln):
+        if m and m.group("file") == main_disp and int(m.group("line")) in at and (UNUSED_RE.search(ln) or IWC_RE.search(ln)):
             continue
         out.append(ln)
     return out
@@ -345,6 +364,7 @@ def shape(line: str) -> str:
     if mc:
         code = mc.group(1)
         body = body[: mc.start()]
+    body = re.sub(r"; did you mean .*\?$", "; did you mean ...?", body)
     body = re.sub(r'"[^"]*"', '"_"', body)
     body = re.sub(r"\d+", "N", body)
     return f"{sev}[{code}] {body.strip()[:70]}"
